@@ -120,7 +120,8 @@ def run(tier):
     # assignment targets of every register kind: only P registers are predicate writes
     targets = ["HEX_REG_ALIAS_PKTCOUNT = RssV;", "HEX_REG_ALIAS_LR = RsV;", "HEX_REG_ALIAS_SP = RsV;", "HEX_REG_ALIAS_USR = RsV;", "C1 = RsV;", "M0 = RsV;",
                "R1:0 = RssV;", "R3 = RsV;", "CdV = RsV;", "MuV = RsV;", "RddV = RssV;", "int32_t PdX = RsV; RxV = PdX;", "P0 = RsV; P0 = RtV;",
-               "PeV = RsV;", "P3 = RsV; P2 = RsV; P1 = RsV; P0 = RsV;", "RxV = P1; RyV = PtV;", "HEX_REG_ALIAS_FRAMEKEY = RsV; P1 = RtV;"]
+               "PeV = RsV;", "PuV = RsV;", "PtV |= RsV;", "PvV = 1;", "PxV = RsV;", "PsV = PtV;", "PyV ^= RsV;", "PuV = PuV & RsV;", "PdV |= RsV;", "P1 |= RsV;",
+               "RxV = PuV; PuV = RxV;", "P3 = RsV; P2 = RsV; P1 = RsV; P0 = RsV;", "RxV = P1; RyV = PtV;", "HEX_REG_ALIAS_FRAMEKEY = RsV; P1 = RtV;"]
     progs = progs + ["{ " + t + " }" for t in targets] + ["{ if (RuV > 0) { " + t + " } }" for t in targets]
     # untargeted complement: typed random bodies whose leaves / targets are operands of every kind (mixed family, operand variant)
     # and store/load shapes that feed each other; the implied attribute set comes from my own AST of the same text
